@@ -97,7 +97,7 @@ def run(ctx):
         exact = t % 2 == 0
         if exact:
             hs = [Fraction(rng.choice((1, 2, 4, 8)), rng.choice((1, 2, 4))) for _ in range(3)]
-            pos = [Fraction(rng.randint(-8, 8), 16) * h for h in hs]
+            pos = [Fraction(rng.choice((-8, 8, rng.randint(-8, 8), rng.randint(-8, 8))), 16) * h for h in hs]  # incl. faces/corners
         else:
             hs = [Fraction(rng.randint(1, 40), rng.randint(1, 13)) for _ in range(3)]
             pos = [Fraction(rng.randint(-50, 50), 100) * h for h in hs]
@@ -107,6 +107,11 @@ def run(ctx):
         pq = [Fraction(float(p)) for p in pos]
         N = d.eval_shape_fun(np.array([float(p) for p in pos[:dim]]))
         dN = d.eval_shape_fun_der(np.array([float(p) for p in pos[:dim]]))
+        if not (np.all(np.isfinite(N)) and np.all(np.isfinite(dN))):
+            ctx.violation('impl-violates', 'DomainDefinition', 'shape functions and derivatives are finite inside the closed element',
+                          f'dim{dim}', dict(sizes=[str(h) for h in hs], pos=[str(p) for p in pos[:dim]]), expected='finite values',
+                          got=dict(N=str(N.tolist()), dN=str(dN.tolist())))
+            continue
         cmpf = 'Ql_eqb' if exact else 'Ql_close tol'
         cmpf2 = 'Qll_eqb' if exact else 'Qll_close tol'
         add(('shape', dim, exact, tuple(hq), tuple(pq)),
@@ -168,23 +173,31 @@ def oracle(ctx, pym, thorough=False):
                 expd = (expc[:, :, None] * ndof + np.arange(ndof)[None, None, :]).reshape(d.nel, -1)
                 if dc.shape != expd.shape or not np.array_equal(dc, expd):
                     bad('dof connectivity expands per dof', expd.tolist(), dc.tolist(), ndof=ndof)
+            for name, got, ref in (('get_node_indices() default = all nodes in node order', d.get_node_indices(), d.get_node_indices(np.arange(d.nnodes))),
+                                   ('get_node_position() default = all nodes in node order', d.get_node_position(), d.get_node_position(np.arange(d.nnodes)))):
+                if got.shape != ref.shape or not np.array_equal(got, ref):
+                    bad(name, ref.tolist(), got.tolist())
             pos = d.get_node_position(nd)
             if not np.array_equal(pos, (np.array(sizes[:dim])[:, None] * exp)):
                 bad('node position = index * element size', None, pos.tolist())
             # shape functions
-            for _ in range(3 if not thorough else 10):
+            for it in range(4 if not thorough else 12):
                 h = np.array(sizes[:dim])
                 p = (rng.random(dim) - 0.5) * h
+                if it % 2 == 1:  # a point on the boundary of the element (face / edge / corner)
+                    k = rng.integers(1, dim + 1)
+                    ax = rng.choice(dim, size=k, replace=False)
+                    p[ax] = rng.choice([-0.5, 0.5], size=k) * h[ax]
                 N = d.eval_shape_fun(p)
                 if N.shape != (2 ** dim,) or abs(N.sum() - 1) > 1e-12 or N.min() < -1e-12:
                     bad('shape functions non-negative and sum to one', 1.0, N.tolist(), pos=p.tolist())
                 dN = d.eval_shape_fun_der(p)
                 for dd in range(dim):
-                    t = 0.125
+                    t = 0.125 * (-1.0 if p[dd] > 0 else 1.0)  # step towards the inside (N_a is affine in each coordinate)
                     q = p.copy()
                     q[dd] += t
                     fd = (d.eval_shape_fun(q) - N) / t
-                    if np.abs(fd - dN[dd]).max() > 1e-9:
+                    if not np.all(np.isfinite(dN)) or np.abs(fd - dN[dd]).max() > 1e-9:
                         bad('reported derivatives are the gradients', fd.tolist(), dN[dd].tolist(), pos=p.tolist(), direction=dd)
             for bnode, n in enumerate(d.node_numbering):
                 N = d.eval_shape_fun(np.array(n[:dim]) * np.array(sizes[:dim]) / 2)
